@@ -3,6 +3,7 @@ package checks
 import (
 	"bytes"
 	"fmt"
+	"io"
 	"math/rand"
 	"regexp"
 	"strings"
@@ -688,6 +689,31 @@ func c08Case(c *core.Ctx, i int64, toks []lang.Tok, orig *lang.Program, r *rand.
 			}
 			c.Count("chunked_parses_compared", 1)
 		}
+	}
+	// positions do not depend on where the diagnostics go: the same program compiled with io.Discard (or a func
+	// adapter) as log and output writer carries the same positions and line table, and fails at the same place
+	if perr == nil && i%3 == 1 {
+		var wl, wo io.Writer = io.Discard, io.Discard
+		if i%2 == 0 {
+			wl, wo = writerFunc(func(p []byte) (int, error) { return len(p), nil }), io.Discard
+		}
+		qp, qerr := bcl.Parse(src, "in", bcl.OptLogger(wl), bcl.OptOutput(wo))
+		c.Eval(1)
+		if qerr != nil {
+			c.Violation("positions-depend-on-the-log-writer", fmt.Sprintf("the program is rejected (%v) when the log writer is %T", qerr, wl), det(""))
+			return
+		}
+		a, b := bcl.VerifProgParts(qp), bcl.VerifProgParts(prog)
+		if fmt.Sprint(a.Positions) != fmt.Sprint(b.Positions) || fmt.Sprint(a.LineFeeds) != fmt.Sprint(b.LineFeeds) {
+			c.Violation("positions-depend-on-the-log-writer", fmt.Sprintf("positions or line table differ when the log writer is %T: %d line feeds vs %d", wl, len(a.LineFeeds), len(b.LineFeeds)), det(""))
+			return
+		}
+		_, _, qx := bcl.Execute(qp)
+		if fmt.Sprint(qx) != fmt.Sprint(res.Err) && !unspec && res.Panic == "" {
+			c.Violation("positions-depend-on-the-log-writer", fmt.Sprintf("with log writer %T the run ends in %v, otherwise in %v", wl, qx, res.Err), det(""))
+			return
+		}
+		c.Count("programs_recompiled_with_other_log_writers", 1)
 	}
 	if perr == nil && res.Err != nil && i%2 == 0 {
 		d, derr, pan, _ := dumpOf(prog)
